@@ -27,7 +27,7 @@ SHARDS = {"quick": 8, "thorough": 16}
 DEADLINE = {"quick": 60, "thorough": 600}
 REQUIRED = {
     "visit:pre": 100, "visit:in": 100, "visit:post": 100, "visit:pre:stopped": 50, "visit:in:stopped": 50,
-    "visit:post:stopped": 50, "query:find_id:hit": 20, "query:find_id:miss": 5, "query:get_sibling": 50,
+    "visit:post:stopped": 50, "visit:nested": 500, "query:find_id:hit": 20, "query:find_id:miss": 5, "query:get_sibling": 50,
     "query:get_root_side": 50, "query:find_type": 20, "shape:one-child": 10, "mutation-histories": 50, "mutation:move": 50, "mutation:wrap": 50,
 }
 
@@ -53,6 +53,47 @@ def factories():
     return {"raw": raw, "expr": expr}
 
 
+def nested_walks(rec, root, kindname, rng):
+    """a visitor may itself walk the tree (numbering nodes with root.to_list().index(node), looking
+    something up from the root, ...): a traversal started from inside a callback of another one
+    must still reach every node exactly once in its own order, and the outer one must go on
+    unharmed (the contract on the outer call decides that part)."""
+    nodes = S.nodes_preorder(root)
+    shp = W9.shape_str(W9.shape_of(root))
+    orders = {"preorder": "pre", "inorder": "in", "postorder": "post"}
+    for outer in orders:
+        for inner in orders:
+            at = rng.randrange(len(nodes))
+            where = rng.choice(["root", "node", "parent"])
+            got = []
+            count = [0]
+
+            def fn(node, depth, data):
+                count[0] += 1
+                if count[0] - 1 != at:
+                    return None
+                start = root if where == "root" else node if where == "node" else (node.parent or node)
+                seq = []
+                getattr(start, f"visit_{inner}")(lambda n2, d2, dat2: seq.append((n2, d2)), 0, None)
+                want = MT.ref_order(start, orders[inner], 0, [])
+                got.append((seq, want, start))
+                if kindname == "expr" and where == "root":
+                    lst = root.to_list(inner)
+                    got.append(([(x, None) for x in lst], [(x, None) for x, _ in MT.ref_order(root, orders[inner], 0, [])], root))
+                return None
+
+            getattr(root, f"visit_{outer}")(fn, 0, None)
+            for seq, want, start in got:
+                rec.ev()
+                rec.arm("visit:nested")
+                if len(seq) != len(want) or any(a[0] is not b[0] or a[1] != b[1] for a, b in zip(seq, want)):
+                    rec.violation("C14", f"visit_{inner}", f"{inner} traversal does not follow the defining order / STOP contract",
+                                  {"shape": shp, "nested": True, "summary": f"shape {shp[:80]}: a {inner} walk started inside a callback of a {outer} walk "
+                                   f"(at callback {at}, from the {where}) made {len(seq)} callbacks, {len(want)} nodes are reachable"})
+                elif len(want) >= 2:
+                    rec.nontrivial((shp, "nested", outer, inner, at, where, kindname))
+
+
 def drive_tree(rec, root, kindname, rng, full_stops=True):
     from mathy_core.tree import STOP
     from mathy_core import expressions as E
@@ -60,6 +101,10 @@ def drive_tree(rec, root, kindname, rng, full_stops=True):
     nodes = S.nodes_preorder(root)
     n = len(nodes)
     shp = W9.shape_str(W9.shape_of(root))
+    try:
+        nested_walks(rec, root, kindname, rng)
+    except RecursionError:
+        pass
     if any((x.left is None) != (x.right is None) for x in nodes):
         rec.arm("shape:one-child")
     for order in ("preorder", "inorder", "postorder"):
